@@ -17,7 +17,7 @@ LEVEL = "exploration"
 NEEDS = ["harness", "cli"]
 RULE = ("C: complete-data call sets with 1-4 populations of UNEQUAL sizes (two single-individual populations for R0/R1/KING), allele "
         "frequencies spread over the whole range incl. fixed-ALT sites, 5-300 records; every statistic defined for the dimensionality is "
-        "requested in one `stat` call with --precision 12 and compared with the genotype-level value (abs 1e-9 + rel 1e-9 + 0.5e-12), and again at coarse precisions 0-6 (one for all / one per statistic) where every token must be the exact value rounded to its own printed digits; L: 1-D spectra of 3-600 chromosomes and two of more than 2^16; "
+        "requested in one `stat` call with --precision 12 and compared with the genotype-level value (abs 1e-9 + rel 1e-9 + 0.5e-12), and again at coarse precisions 0-6 (one for all / one per statistic) where every token must be the exact value rounded to its own printed digits; L: 1-D spectra of 3-600 chromosomes and two of more than 2^16; eight sparse joint spectra with 2^14 and more cells (129x131 ... 3x19x19x21) against the site-level definitions; "
         "1-D count spectra with n in 3..600 chromosomes (random, sparse, singleton-heavy, mass in the last class) against the published "
         "formulas. Statistics whose exact denominator is 0 are skipped (trivial). Non-trivial: S >= 2 and not all sites identical; distinct = "
         "digest(genotype codes, map) / digest(spectrum). Each statistic has its own counter and floor.")
@@ -25,7 +25,7 @@ ASSUMPTIONS = ["reference values use exact rationals; only the final square root
                "Fu and Li's D is the with-outgroup version using derived singletons (Fu and Li 1993), Tajima's D as in Tajima 1989"]
 STATS_BY_DIM = {1: ["sum", "s", "pi", "theta", "d-tajima", "d-fu-li"], 2: ["sum", "s", "f2", "fst", "pi-xy"], 3: ["sum", "s", "f3"], 4: ["sum", "s", "f4"]}
 ALL14 = ["d-fu-li", "d-tajima", "f2", "f3", "f4", "fst", "king", "pi", "pi-xy", "r0", "r1", "s", "sum", "theta"]
-FLOORS = {"quick": {"evaluations": 1500, "distinct_nontrivial": 1000, "counts": dict({"C_pipelines": 250, "L_spectra": 1500, "L_huge_samples": 2}, **{"stat_" + s: 20 for s in ALL14})},
+FLOORS = {"quick": {"evaluations": 1500, "distinct_nontrivial": 1000, "counts": dict({"C_pipelines": 250, "L_spectra": 1500, "L_huge_samples": 2, "L_large_joint_spectra": 8}, **{"stat_" + s: 20 for s in ALL14})},
           "thorough": {"evaluations": 60000, "distinct_nontrivial": 40000, "counts": dict({"C_pipelines": 8000, "L_spectra": 60000}, **{"stat_" + s: 500 for s in ALL14})}}
 NSHARD = 32
 
@@ -193,9 +193,68 @@ def check_L(S, p):
         S.case(key=digest(c), nontrivial=exact["s"] >= 2 and len(set(c)) > 2)
 
 
+def check_L_large_joint(S, p):
+    """Joint spectra with 2^14 and more cells (two to four populations of dozens to thousands of samples), sparse integer counts incl. the
+    last rows / columns and the fixed-difference corners: f2, Fst, pi_xy, f3, f4, S, sum against the values computed from the sites."""
+    import itertools
+    rng = rng_for(S.seed, "c06", p["name"], "large-joint")
+    shape = rng.choice([[129, 131], [150, 160], [3, 6001], [6001, 3], [3, 81, 83], [41, 3, 201], [3, 19, 19, 21], [9, 13, 11, 17], [257, 65]])
+    d = len(shape)
+    n = 1
+    for x in shape:
+        n *= x
+    strides = [1] * d
+    for j in range(d - 2, -1, -1):
+        strides[j] = strides[j + 1] * shape[j + 1]
+    cells = {}
+    corners = [tuple(x - 1 if b else 0 for x, b in zip(shape, bits)) for bits in itertools.product([0, 1], repeat=d)]
+    for ix in corners + [tuple(rng.randrange(x) for x in shape) for _ in range(60)] + [tuple(x - 1 - rng.randrange(min(2, x)) for x in shape) for _ in range(10)]:
+        cells[ix] = cells.get(ix, 0) + rng.randint(1, 4)
+    data = [0.0] * n
+    sites = []
+    for ix, c in cells.items():
+        data[sum(a * b for a, b in zip(ix, strides))] = float(c)
+        sites += [[(k, x - 1) for k, x in zip(ix, shape)]] * c
+    r = harness.run_all([{"op": "spec", "do": "stats", "shape": shape, "data": GS.hexes(data)}], timeout=900)[0]
+    exact = OS.from_genotypes(sites)
+    S.count("L_large_joint_spectra")
+    wit = {"level": "L", "shape": shape, "cells": [[list(ix), c] for ix, c in sorted(cells.items())]}
+    for nm in STATS_BY_DIM[d]:
+        e = exact.get(nm)
+        if e is None:
+            continue
+        S.count("stat_" + nm)
+        v = r.get(nm, {})
+        if "v" not in v:
+            S.viol("C06:stat-fail:%s" % nm, "[L joint spectrum %r] %s failed: %s" % (shape, nm, str(v)[:200]), wit)
+        elif not close(h2f(v["v"]), e):
+            S.viol("C06:site-definition:%s" % nm, "[L joint spectrum %r, %d sites in %d cells] %s = %.12g, from the sites %.12g" % (shape, len(sites), len(cells), nm, h2f(v["v"]), float(e)), wit)
+    # the same spectrum through the binary, several statistics in one call, in a shuffled order, twice: columns in request order
+    names = [nm for nm in STATS_BY_DIM[d] if exact.get(nm) is not None]
+    rng.shuffle(names)
+    inp = GS.npy_bytes(shape, data)
+    for rep in range(2):
+        b = cli.sfs(["stat", "-s", ",".join(names), "--precision", "12", "-H"], stdin=inp, timeout=300)
+        S.count("C_large_joint_stat_runs")
+        lines = b.out.decode().strip().split("\n") if b.rc == 0 else []
+        if len(lines) != 2 or len(lines[0].split(",")) != len(names) or len(lines[1].split(",")) != len(names):
+            S.viol("C06:format", "[C stat -s %s -H on joint spectrum %r] rc %s stdout %r stderr %r" % (",".join(names), shape, b.rc, b.out[:200], b.err[:200]), dict(wit, stat=b.brief()))
+            continue
+        for nm, tok in zip(names, lines[1].split(",")):
+            try:
+                g = float(tok)
+            except ValueError:
+                g = float("nan")
+            if not close(g, exact[nm]):
+                S.viol("C06:site-definition:%s" % nm, "[C stat -s %s on joint spectrum %r] column %s printed %s, from the sites %.12f" % (",".join(names), shape, nm, tok, float(exact[nm])), dict(wit, stat=b.brief()))
+    S.case(key=digest(["large-joint", shape, sorted(cells.items())]), nontrivial=True)
+
+
 def shard(S, p):
     if "replay" in p:
         S.inconc("witness carries the inputs for manual replay")
         return
     check_C(S, p)
+    if p["i"] % 4 == 2:
+        check_L_large_joint(S, p)
     check_L(S, p)
